@@ -164,9 +164,10 @@ def snapshot(obj):
 KW_TRANSFORM = None
 
 
-def call_impl(fn, kwargs):
+def call_impl(fn, kwargs, expect_shape=None):
     """Call fn(**kwargs) on deep copies' originals; report canonical outcome and whether the
-    caller's arguments were modified."""
+    caller's arguments were modified.  expect_shape: the (multi-dimensional) shape the result must have;
+    it is then compared flattened in C order."""
     import warnings
 
     if KW_TRANSFORM is not None:
@@ -176,7 +177,14 @@ def call_impl(fn, kwargs):
         with warnings.catch_warnings():
             warnings.simplefilter("ignore")
             res = fn(**kwargs)
-        canon = canon_flags(res)
+        if expect_shape is not None:
+            import numpy as np
+            if tuple(np.shape(res)) != tuple(expect_shape):
+                canon = f"X:shape{tuple(np.shape(res))}"
+            else:
+                canon = canon_flags(res.reshape(-1))
+        else:
+            canon = canon_flags(res)
     except Exception as e:  # noqa: BLE001
         canon = canon_exc(e)
     after = {k: snapshot(v) for k, v in kwargs.items()}
